@@ -6,7 +6,7 @@
    output: one item per event, '|' separated: '-' for a notification, else the predicted provenance
         E | L<p>.<vid> | D<p>.<parser vid>.<v1 vid>.<v2 vid or -> | C<p>.<vid>,... | T<p>.<vid>,... (sorted)
    with a trailing ";F" the output is followed by "#fresh=<0|1>": the property's oracle evaluated on the model;
-   with a trailing ";K" by "#" and, per event, the known situations it is in: letters d(ependent) c(lose) t(ree) or '-' *)
+   with a trailing ";K" by "#" and, per event, the known situations it is in: letters d(ependent) t(ree) or '-' *)
 open Driver_common
 open Datatypes
 open Cache
@@ -57,8 +57,8 @@ let run_case (line : string) : string =
     let out = Stdlib.String.concat "|" (Stdlib.List.map show_answer (run_server ws evs)) in
     if tl = ["F"] then out ^ "#fresh=" ^ (if fresh_run (init ws) evs then "1" else "0")
     else if tl = ["K"] then
-      out ^ "#" ^ Stdlib.String.concat "|" (Stdlib.List.map (fun ((d, c), t) ->
-          let s = (if d then "d" else "") ^ (if c then "c" else "") ^ (if t then "t" else "") in
+      out ^ "#" ^ Stdlib.String.concat "|" (Stdlib.List.map (fun (d, t) ->
+          let s = (if d then "d" else "") ^ (if t then "t" else "") in
           if s = "" then "-" else s) (triggers_of ws evs))
     else out
   | _ -> failwith "bad case"
